@@ -53,6 +53,7 @@ func init() {
 	reg(propCfg{ID: "C18", Level: "exploration", Quick: q(16, 3000), Thorough: th(16, 80000)})
 	reg(propCfg{ID: "C05", Level: "exploration", Quick: q(16, 3000), Thorough: th(16, 80000)})
 	reg(propCfg{ID: "C06", Level: "exploration", Quick: q(16, 3000), Thorough: th(16, 50000)})
+	reg(propCfg{ID: "C07", Level: "exploration", Quick: q(16, 2500), Thorough: th(16, 40000)})
 	reg(propCfg{ID: "C11", Level: "exploration", Quick: q(16, 5000), Thorough: th(16, 60000)})
 }
 
